@@ -113,6 +113,7 @@ def term_program(rng, counters):
     tg = gen.TermGen(rng, "full")
     term = tg.deferred_term(locs, rng.randrange(1, 7))
     try:
+        sh.guard_literals(term)
         sh.eval(term)
     except Discard:
         return None
